@@ -31,8 +31,36 @@ def find_calls(body, names):
     return [(bb, t) for bb, t in body.calls() if callee_name(t) in names and not body.is_cleanup(bb)]
 
 
+def resolve_primitives(prog):
+    """The four bit helpers are private to `mod compact`; they are identified by their role (signature), so renaming one of
+    them does not orphan the rules: store(&mut u32, u8, u32, u8), load(u32, u8, u32) -> u8, bit(&u32, u8) -> bool,
+    set_bit(&mut u32, u8, bool).  The conventional names are kept when the signatures do not single out one function each."""
+    global STORE, LOAD, BIT, SETBIT
+    mod = "weechess_core::moves::compact::"
+    sig = {}
+    for n, b in prog.bodies.items():
+        if not n.startswith(mod) or "{closure" in n or n.startswith("<") or n.count("::") != mod.count("::"):
+            continue
+        key = tuple(b.local_ty(i) for i in range(1, b.arg_count + 1)) + ("->", b.local_ty(0))
+        sig.setdefault(key, []).append(n)
+    want = {
+        "STORE": ("&mut u32", "u8", "u32", "u8", "->", "()"),
+        "LOAD": ("u32", "u8", "u32", "->", "u8"),
+        "BIT": ("&u32", "u8", "->", "bool"),
+        "SETBIT": ("&mut u32", "u8", "bool", "->", "()"),
+    }
+    found = {k: sig.get(v, []) for k, v in want.items()}
+    if all(len(v) == 1 for v in found.values()):
+        STORE, LOAD, BIT, SETBIT = found["STORE"][0], found["LOAD"][0], found["BIT"][0], found["SETBIT"][0]
+    prog.no_inline = set(getattr(prog, "no_inline", ())) | {STORE, LOAD, BIT, SETBIT}
+    prog._inlined = {}
+    prog.inlined_helpers = {}
+    return {k: v for k, v in found.items()}
+
+
 def run(ck):
     prog = ck.prog
+    ck.extra["bit_helpers"] = resolve_primitives(prog)
     ck.explanation = (
         "Decides the bit-packed Move layout: getter/setter of every attribute use the same (offset, mask) / bit; "
         "masks are contiguous at their offset, wide enough for the stored domain, pairwise disjoint and below bit 32; "
